@@ -27,6 +27,22 @@ def _impl():
     return real_module('athlib.implements')
 
 
+def instrument_with_helpers(func, shadows=None):
+    """re-compile `func` and, into the same namespace, every other plain function of its module (helpers it may call must see the
+    proxies through the same rewrites); returns the Instrumented of `func`"""
+    import types
+    mod = real_module(func.__module__)
+    inst = instrument(func, shadows=shadows)
+    for n, v in vars(mod).items():
+        if isinstance(v, types.FunctionType) and v.__module__ == mod.__name__ and v is not func and n not in (shadows or {}) \
+                and n not in ('get_implement_weight', 'get_specific_event_code'):
+            try:
+                instrument(v, share_globals=inst)
+            except BaseException:
+                pass
+    return inst
+
+
 def _label(a):
     s = sym_mod('V%02d', (a,))
     return s.force() if hasattr(s, 'force') else s
@@ -34,7 +50,7 @@ def _label(a):
 
 def unit_masters(args):
     ev, g = args
-    f = instrument(_impl().get_implement_weight)
+    f = instrument_with_helpers(_impl().get_implement_weight)
 
     def run():
         c = ctx()
@@ -89,7 +105,7 @@ def _code_ok(code, ev, weight_text):
 def unit_specific(args):
     ev, g = args
     im = _impl()
-    fw = instrument(im.get_implement_weight)
+    fw = instrument_with_helpers(im.get_implement_weight)
     f = instrument(im.get_specific_event_code, shadows={'get_implement_weight': fw.fn})
 
     def run():
@@ -333,6 +349,32 @@ def _ground_one(g):
     return False
 
 
+def masters_ground(run):
+    """the real get_implement_weight along the masters bands the library can produce and well beyond (V35..V150 in fives): defined,
+    never heavier than in the band before - the ground twin of the symbolic masters clauses"""
+    im = _impl()
+    for ev in EVENTS:
+        for g in 'MF':
+            prev = None
+            bad = None
+            for k in range(35, 155, 5):
+                lab = 'V%02d' % k
+                try:
+                    w = float(im.get_implement_weight(ev, g, lab))
+                except Exception as e:
+                    bad = (lab, 'raises %s' % type(e).__name__)
+                    break
+                if prev is not None and w > prev[1]:
+                    bad = (lab, '%s throws %s but the younger %s throws %s' % (lab, w, prev[0], prev[1]))
+                    break
+                prev = (lab, w)
+            name = 'masters-implements-never-heavier/%s-%s/V35..V150' % (ev, g)
+            run.record(name, 'ground', 'refuted' if bad else 'proved', 'ground-evaluation', 0.0, 'masters')
+            if bad:
+                run.violation(name, dict(ground=['label', ev, g, bad[0]], call='get_implement_weight(%r,%r,%r)' % (ev, g, bad[0]), observed=bad[1],
+                                         required='not heavier than the band before'), True)
+
+
 def exercise_scorers():
     """use every scorer with good and with mistyped codes (a forgotten unit, a stray digit, white space): the tables must carry
     the same keys afterwards - a key filed under whatever the caller typed would not be an event code"""
@@ -359,6 +401,7 @@ def exercise_scorers():
 
 
 def ground(run):
+    masters_ground(run)
     before = set(table_keys())
     ncalls = exercise_scorers()
     after = table_keys()
@@ -445,7 +488,7 @@ def crosscheck(run, seed):
     import random
     from pyvc.core import concrete_ctx
     im = _impl()
-    f = instrument(im.get_implement_weight)
+    f = instrument_with_helpers(im.get_implement_weight)
     rnd = random.Random(seed)
     labs = LIB_LABELS + ['V%02d' % a for a in range(35, 130, 5)] + ['U14', 'U16', 'U18', 'X', '', 'V', 'V8', 'v80', 'V080'] + \
         ['V%02d' % rnd.randrange(0, 2000) for _ in range(40)]
